@@ -21,13 +21,14 @@ def clone(node):
 
 
 class Def:
-  __slots__ = ('name', 'node', 'value', 'how')
+  __slots__ = ('name', 'node', 'value', 'how', 'index')
 
-  def __init__(self, name, node, value, how):
+  def __init__(self, name, node, value, how, index=None):
     self.name = name
     self.node = node    # CFG node
     self.value = value  # RHS expression for how == 'assign', iter expr for 'iter', else None
     self.how = how      # param assign aug iter unpack with handler def import ann
+    self.index = index  # for how == 'unpack': position in the (flat, unstarred) target tuple
 
   def __repr__(self):
     return '<Def %s@%d %s>' % (self.name, self.node.lineno, self.how)
@@ -43,7 +44,11 @@ def _targets(t, value, how, out, node):
           and not any(isinstance(x, ast.Starred) for x in list(value.elts) + list(t.elts)):
         _targets(e, value.elts[i], 'assign', out, node)
       else:
+        before = len(out)
         _targets(e, value, 'unpack' if how == 'assign' else how, out, node)
+        if how == 'assign' and isinstance(e, ast.Name) and not any(isinstance(x, ast.Starred) for x in t.elts):
+          for d in out[before:]:
+            d.index = i
   elif isinstance(t, ast.Starred):
     _targets(t.value, value, 'unpack', out, node)
   # Attribute / Subscript targets define no local name
